@@ -271,18 +271,25 @@ theorem verified_sound (H : Bytes → Bytes) (s : State) (f : Faults) (h v : Byt
       subst hv; simpa using hw
 
 /- FULL (the property: "a storage or cache failure, an unknown hash or a corrupted stored chain produces an error
-   response, never altered, truncated or empty chain data"):
+   response, never altered, truncated or empty chain data"). FALSE on the tree as found: `getByHash` never compares
+   SHA-256(bytes) with the hash it looked up, so a row that is the well-formed DER of another chain / of no chain is served
+   with status 200 (finding, known_findings.d/C14.json, fixes/C14-2.diff; the harness generates such rows). With the fix
+   `Gen.getByHashVerifiesHash` regenerates to `true` and the following compiles verbatim (checked against the patched
+   scratch tree); until then the proved form is `fault_is_error_partial`, which carries the flag as a conjunct.
 
      theorem hash_check_present : Gen.getByHashVerifiesHash = true := rfl
 
-     theorem fault_is_error … (hbad : (∃ e, raw = .error e) ∨ (∃ der, raw = .ok der ∧ (H der ≠ h ∨ parseDerChain der = none))) :
-         ∃ e, fixLogLeaf (getByHash Gen.getByHashVerifiesHash H s f) extra = .error e
-
-   i.e. `fault_is_error_partial` below without the conjunct `Gen.getByHashVerifiesHash = true`. It is FALSE on the tree as
-   found: `getByHash` never compares SHA-256(bytes) with the hash it looked up, so a row that is the well-formed DER of
-   another chain / of no chain is served with status 200 (finding, known_findings.d/C14.json, fixes/C14-2.diff; the
-   harness generates these rows). With the fix `Gen.getByHashVerifiesHash` regenerates to `true`, `hash_check_present`
-   compiles and the conjunct can be dropped (checked on the patched scratch tree, see notes/C14.md). -/
+     theorem fault_is_error (H : Bytes → Bytes) (s : State) (f : Faults) (extra : Bytes) (h : Bytes) (hne : h.length ≠ 0)
+         (hlay : (∃ pre, decPCEH extra = some (pre, h)) ∨ (decPCEH extra = none ∧ decCCH extra = some h))
+         (hbad : (∃ e, getByHashRaw s f h = .error e) ∨
+                 (∃ der, getByHashRaw s f h = .ok der ∧ (H der ≠ h ∨ parseDerChain der = none))) :
+         ∃ e, fixLogLeaf (getByHash Gen.getByHashVerifiesHash H s f) extra = .error e := by
+       apply fault_is_error_partial H s f extra h hne hlay
+       rcases hbad with he | ⟨der, hg, hh | hp⟩
+       · exact Or.inl he
+       · exact Or.inr ⟨der, hg, Or.inr ⟨hash_check_present, hh⟩⟩
+       · exact Or.inr ⟨der, hg, Or.inl hp⟩
+-/
 
 /-- **fault_is_error_partial.** If the extra data is one of the two hash layouts with a non-empty hash and the lookup
 fails (storage or cache error, unknown hash), or returns bytes that do not decode as a chain, or — where the code
@@ -376,6 +383,44 @@ theorem fix_ok_cases (get : Bytes → Except Err Bytes) (extra x : Bytes) (h : f
           simp only [h2, Except.ok.injEq] at h
           exact Or.inl ⟨h.symm, rfl, rfl, Or.inr (by simp)⟩
         | none => simp [h2] at h
+
+/-! ## the two modes refuse the same submissions — one direction only -/
+
+/-- what the in-backend mode accepts, the external-storage mode accepts too (for a hash the layouts can carry) -/
+theorem direct_accepts_implies_indirect_partial (H : Bytes → Bytes) (isPrecert : Bool) (cert : Bytes) (chain : List Bytes) (dx : Bytes)
+    (hH : (H (derChain chain)).length ≤ 256)
+    (hd : buildDirect isPrecert cert chain = some dx) : (buildIndirect H isPrecert cert chain).isSome = true := by
+  unfold buildIndirect
+  have hh : ∀ b : Nat × Nat, b = (0, 256) → (encVec b (H (derChain chain))).isSome = true := by
+    intro b hb; subst hb; unfold encVec; simp [hH]
+  cases isPrecert with
+  | false => simp only [Bool.false_eq_true, if_false]; unfold encCCH; exact hh _ cchHashB_eq
+  | true =>
+    simp only [if_true]
+    unfold buildDirect at hd
+    simp only [if_true] at hd
+    obtain ⟨a, _, _, ha, _, _, _⟩ := encPCE_some hd
+    unfold encPCEH
+    rw [ha]
+    have := hh _ pcehHashB_eq
+    cases hb : encVec pcehHashB (H (derChain chain)) with
+    | none => simp [hb] at this
+    | some b => rfl
+
+/- FULL: `(buildIndirect H p cert chain).isSome ↔ (buildDirect p cert chain).isSome` — "the same submissions are
+   accepted". The direction ← is the theorem above; → is FALSE: the external-storage mode only DER-encodes the chain at
+   submission, so it accepts a chain whose TLS form the in-backend mode refuses (an empty certificate; a chain body
+   above 2^24−1 bytes). Such an entry is sequenced and every later read of its index (and of every range containing
+   it) is a 500. Not a violation of the letter of the property (the in-backend mode serves nothing for that submission
+   to compare with); recorded as an observation in notes/C14.md, counted by the harness (`synth-refused-one-sided`). -/
+example : (buildIndirect exH false exCert [[]]).isSome = true ∧ buildDirect false exCert [[]] = none := by decide
+
+/-! ## a failure to restore the chain is a server error at both readers -/
+
+/-- regenerated from handlers.go: `rpcGetLeavesByRange` visits every leaf of the reply, answers a `FixLogLeaf` failure on
+any of them with this status and returns the reply whole otherwise (the unit fails to extract for any other shape —
+seeded change C14-3); `rpcGetEntryAndProof` likewise. Together with `range_all_or_error` / `fault_is_error_partial`. -/
+theorem fix_error_is_server_error : 500 ≤ Gen.rangeFixErrorStatus ∧ 500 ≤ Gen.entryFixErrorStatus := by decide
 
 /-! ## ranges: all or nothing -/
 
